@@ -44,7 +44,12 @@ Ties (an item arriving at the very instant of the deadline) are decided by the o
 and `take`/`timeout` at the same clock value, as in reality.
 
 History variables (never read by a guard): `arrived` (every arrival with its clock), `taken`,
-`out` (the batches handed to the consumer).
+`takenAt` (the same with the clock of each get), `out` (the batches handed to the consumer), `outAt`
+(the clock at which each was handed over).
+
+`greedy` (end of file) is the closed form of the batches under zero processing time: greedy
+grouping of the take-stamped sequence into windows of length `wait` (proved in `Props/C19.lean`,
+`C19_closed_form`, for runs without a missed tie).
 
 Assumed (trusted base): `queue.Queue` is FIFO, `get(timeout=t)` returns an item if one is queued
 when it looks, otherwise waits until an item arrives or exactly `t` has elapsed; `put`/`get` are
@@ -86,7 +91,9 @@ structure State where
   fin : Bool                  -- the end marker has been taken
   arrived : List (Item × Nat) -- history: arrivals with their clock
   taken : List Item           -- history: everything the batcher's gets returned
+  takenAt : List (Item × Nat) -- history: the same, with the clock at which each get returned
   out : List (List Item)      -- history: batches handed to the consumer
+  outAt : List Nat            -- history: clock at which each batch was handed to the consumer
   deriving Repr, DecidableEq
 
 inductive Act where
@@ -94,7 +101,7 @@ inductive Act where
   deriving Repr, DecidableEq
 
 def init : State :=
-  { clock := 0, q := [], pc := .idle, cur := [], t0 := 0, fin := false, arrived := [], taken := [], out := [] }
+  { clock := 0, q := [], pc := .idle, cur := [], t0 := 0, fin := false, arrived := [], taken := [], takenAt := [], out := [], outAt := [] }
 
 def step (c : Cfg) (s : State) : Act → Option State
   | .arrive x => some { s with q := s.q ++ [x], arrived := s.arrived ++ [(x, s.clock)] }
@@ -109,21 +116,21 @@ def step (c : Cfg) (s : State) : Act → Option State
     | z :: rest =>
       if s.pc = .idle then
         if c.isEnd z = true then
-          some { s with q := rest, taken := s.taken ++ [z], pc := .closing, fin := true }
+          some { s with q := rest, taken := s.taken ++ [z], takenAt := s.takenAt ++ [(z, s.clock)], pc := .closing, fin := true }
         else
-          some { s with q := rest, taken := s.taken ++ [z], cur := [z], t0 := s.clock,
+          some { s with q := rest, taken := s.taken ++ [z], takenAt := s.takenAt ++ [(z, s.clock)], cur := [z], t0 := s.clock,
                         pc := if 1 < c.bs then .coll else .flush }
       else if s.pc = .coll then
         if c.isEnd z = true then
-          some { s with q := rest, taken := s.taken ++ [z], pc := .flush, fin := true }
+          some { s with q := rest, taken := s.taken ++ [z], takenAt := s.takenAt ++ [(z, s.clock)], pc := .flush, fin := true }
         else
-          some { s with q := rest, taken := s.taken ++ [z], cur := s.cur ++ [z],
+          some { s with q := rest, taken := s.taken ++ [z], takenAt := s.takenAt ++ [(z, s.clock)], cur := s.cur ++ [z],
                         pc := if s.cur.length + 1 < c.bs then .coll else .flush }
       else none
   | .timeout =>
     if s.pc = .coll ∧ s.q = [] ∧ s.t0 + c.wait ≤ s.clock then some { s with pc := .flush } else none
   | .emit =>
-    if s.pc = .flush then some { s with pc := .held, out := s.out ++ [s.cur], cur := [] } else none
+    if s.pc = .flush then some { s with pc := .held, out := s.out ++ [s.cur], outAt := s.outAt ++ [s.clock], cur := [] } else none
   | .resume =>
     if s.pc = .held then some { s with pc := if s.fin = true then .closing else .idle } else none
   | .stop =>
@@ -137,5 +144,51 @@ def beforeEnd (c : Cfg) (l : List Item) : List Item := l.takeWhile (fun x => !c.
 
 /-- number of arrivals stamped strictly before clock value `t` -/
 def arrivedBefore (s : State) (t : Nat) : Nat := (s.arrived.filter (fun p => decide (p.2 < t))).length
+
+/-! ## Closed form (zero processing time): greedy grouping of the take-stamped sequence -/
+
+structure Grp where
+  out : List (List Item)   -- batches closed so far
+  outAt : List Nat         -- … and the clock at which each is handed out
+  cur : List Item          -- the open batch
+  t0 : Nat                 -- take clock of its first item
+  fin : Bool               -- the end marker has been seen
+  tie : Bool               -- an entry was taken at exactly `t0 + wait` of an open batch
+  deriving Repr, DecidableEq
+
+def Grp.init : Grp := { out := [], outAt := [], cur := [], t0 := 0, fin := false, tie := false }
+
+/-- an open batch whose window `[t0, t0 + wait]` ended before clock `t` went out at `t0 + wait` -/
+def Grp.expire (c : Cfg) (g : Grp) (t : Nat) : Grp :=
+  if g.cur ≠ [] ∧ g.t0 + c.wait < t then
+    { g with out := g.out ++ [g.cur], outAt := g.outAt ++ [g.t0 + c.wait], cur := [] }
+  else g
+
+/-- the end marker closes the open batch at once; an item joins the open batch (or opens one at its
+    take clock), which goes out at once when it is full -/
+def Grp.add (c : Cfg) (g : Grp) (p : Item × Nat) : Grp :=
+  if c.isEnd p.1 = true then
+    if g.cur = [] then { g with fin := true }
+    else { g with out := g.out ++ [g.cur], outAt := g.outAt ++ [p.2], cur := [], fin := true }
+  else if g.cur.length + 1 < c.bs then
+    { g with cur := g.cur ++ [p.1], t0 := if g.cur = [] then p.2 else g.t0 }
+  else
+    { g with out := g.out ++ [g.cur ++ [p.1]], outAt := g.outAt ++ [p.2], cur := [] }
+
+/-- the entry is taken at exactly `t0 + wait` of an open batch: whether it joins that batch depends
+    on who was first, the producer or the time-out -/
+def Grp.isTie (c : Cfg) (g : Grp) (p : Item × Nat) : Bool := decide (g.cur ≠ []) && p.2 == g.t0 + c.wait
+
+/-- one taken entry `p = (value, take clock)` -/
+def feed (c : Cfg) (g : Grp) (p : Item × Nat) : Grp :=
+  if g.fin = true then g
+  else Grp.add c (Grp.expire c { g with tie := g.tie || g.isTie c p } p.2) p
+
+def greedy (c : Cfg) (l : List (Item × Nat)) : Grp := l.foldl (feed c) Grp.init
+
+/-- all batches of the grouping, the open one included (it goes out at `t0 + wait`) -/
+def Grp.closed (g : Grp) : List (List Item) := if g.cur = [] then g.out else g.out ++ [g.cur]
+
+def Grp.closedAt (c : Cfg) (g : Grp) : List Nat := if g.cur = [] then g.outAt else g.outAt ++ [g.t0 + c.wait]
 
 end Eager
